@@ -2,7 +2,7 @@
    Only ExtrOcamlBasic (bool, option, list, prod, unit, sumbool -> OCaml's own types);
    N, Z, positive, nat stay the extracted inductive types.  No Extract Constant. *)
 From Coq Require Extraction ExtrOcamlBasic.
-From Shred Require Import Base SrcParams Plan PlanObs Exec ExecObs Visit Fault World SysData.
+From Shred Require Import Base SrcParams Plan PlanObs Exec ExecObs Visit Fault World SysData Meta.
 Extraction Language OCaml.
 Extraction "extracted/model.ml"
   cap join_slack time_values tuple_arities params_source
@@ -14,4 +14,5 @@ Extraction "extracted/model.ml"
   visits leaf_tags
   faccept_disp ftrace_seq fgroup
   World.step World.empty_world World.probe World.dropped World.run
-  sd_reads sd_writes sd_setup sd_fetch drop_guards classes present_mask world_with.
+  sd_reads sd_writes sd_setup sd_fetch drop_guards classes present_mask world_with
+  mstep empty_mstate dedup_first mrun.
